@@ -1,5 +1,6 @@
 import Goat.Model.MiniGo
 import Goat.Props.C06
+import Goat.Props.C05
 /-!
 # C01 — programs in the supported Go subset run exactly as the Go toolchain runs them
 # (PARTIAL: an end-to-end theorem for the MiniGo fragment; the rest by composition and search)
@@ -12,6 +13,9 @@ comparisons, `if`/`else`, `for` with and without condition, `break`, `continue`,
 * `assign_correct`, `cond_correct` — the code of `x = e` stores the value converted to the
   variable's type and leaves the operand stack as it was; the code of a comparison yields the
   boolean the following jump consumes;
+* `source_to_value` — parser and compiler composed: the tokens of an expression's Go spelling are
+  parsed (binding powers regenerated from symbol.go, C05) to a tree from which exactly the
+  expression is recovered, and its code computes its Go value;
 * `minigo_correct` — running the compiled program (C06's `compile_correct` on these leaves) ends
   past its last instruction with the locals Go's big-step semantics gives; each step of that run
   over a leaf is realised by the instruction-level machine (`leaf_steps_are_real`).
@@ -228,3 +232,94 @@ end Goat.Props.C01
 #print axioms Goat.Props.C01.leavesOK
 #print axioms Goat.Props.C01.minigo_correct
 #print axioms Goat.Props.C01.leaf_steps_are_real
+
+namespace Goat.Props.C01
+open Goat.MiniGo Goat.Pratt
+
+/-! ### from the token text to the value: parser (C05) and compiler/VM (above) composed -/
+
+def opSym : BinOp → String
+  | .add => "+" | .sub => "-" | .mul => "*" | .div => "/" | .mod => "%"
+
+def symOp (s : String) : Option BinOp :=
+  if s = "+" then some .add else if s = "-" then some .sub else if s = "*" then some .mul
+  else if s = "/" then some .div else if s = "%" then some .mod else none
+
+/-- the source tree of a MiniGo expression; local `i` is written with its name `names[i]` -/
+def toTree (names : List String) : MiniGo.Expr → Pratt.Expr
+  | .lit k => .int false k.toNat
+  | .loc i => .name (names.getD i "?")
+  | .bin op a b => .bin (opSym op) (toTree names a) (toTree names b)
+
+/-- what the compiler reads off a parse tree (a name is the local declared with that name) -/
+def ofTree (names : List String) : Pratt.Expr → Option MiniGo.Expr
+  | .int false n => some (.lit n)
+  | .name s => (names.idxOf? s).map .loc
+  | .bin s l r => do
+    let op ← symOp s
+    let a ← ofTree names l
+    let b ← ofTree names r
+    pure (.bin op a b)
+  | _ => none
+
+/-- literals are non-negative (a negative literal is the unary minus of one), locals are declared -/
+def Plain (names : List String) : MiniGo.Expr → Prop
+  | .lit k => 0 ≤ k
+  | .loc i => i < names.length
+  | .bin _ a b => Plain names a ∧ Plain names b
+
+theorem symOp_opSym (op : BinOp) : symOp (opSym op) = some op := by cases op <;> decide
+
+theorem toTree_wf (names : List String) (e : MiniGo.Expr) : WF GoSpec.goTable (toTree names e) := by
+  induction e with
+  | lit k => simp [toTree, WF]
+  | loc i => simp [toTree, WF]
+  | bin op a b iha ihb =>
+    refine ⟨?_, iha, ihb⟩
+    cases op <;> decide
+
+theorem toTree_fold (names : List String) (e : MiniGo.Expr) : fold (toTree names e) = toTree names e := by
+  induction e with
+  | lit k => rfl
+  | loc i => rfl
+  | bin op a b iha ihb => simp [toTree, fold, iha, ihb]
+
+theorem ofTree_toTree (names : List String) (hn : names.Nodup) (e : MiniGo.Expr) (hp : Plain names e) :
+    ofTree names (toTree names e) = some e := by
+  induction e with
+  | lit k =>
+    simp only [Plain] at hp
+    simp [toTree, ofTree, Int.toNat_of_nonneg hp]
+  | loc i =>
+    simp only [Plain] at hp
+    simp only [toTree, ofTree, List.getD_eq_getElem?_getD, List.getElem?_eq_getElem hp, Option.getD_some]
+    have : names.idxOf? names[i] = some i := by
+      rw [List.idxOf?_eq_some_iff]
+      refine ⟨hp, rfl, ?_⟩
+      intro j hj e
+      have := (List.getElem_inj (h₀ := by omega) (h₁ := hp) hn).mp e
+      omega
+    rw [this]; rfl
+  | bin op a b iha ihb =>
+    simp only [Plain] at hp
+    simp [toTree, ofTree, symOp_opSym, iha hp.1, ihb hp.2]
+
+/-- **source_to_value.** For every MiniGo expression: the tokens of its Go spelling (minimal
+    parentheses by Go's precedence) are parsed, with the binding powers found in symbol.go, to a
+    tree from which the compiler recovers exactly the expression; and the code compiled from it
+    pushes exactly the value of Go's left-to-right evaluation (or panics exactly when it does). -/
+theorem source_to_value {V : Type} (P : Prims V) (names : List String) (hn : names.Nodup)
+    (e : MiniGo.Expr) (hp : Plain names e) (σ : St V) :
+    ∃ f, ∀ f', f ≤ f' →
+      (parseExpr genTable f' 0 (render GoSpec.goTable 1 (toTree names e))).bind
+        (fun r => if r.2 = [] then ofTree names r.1 else none) = some e ∧
+      run P (compileE e) σ = (evalE P σ.locals e).map fun v => { σ with ops := v :: σ.ops } := by
+  obtain ⟨f, hf⟩ := Goat.Props.C05.groups_as_go (toTree names e) (toTree_wf names e)
+  refine ⟨f, fun f' hle => ⟨?_, expr_correct P e σ⟩⟩
+  rw [hf f' hle, toTree_fold]
+  simp [ofTree_toTree names hn e hp]
+
+end Goat.Props.C01
+
+
+#print axioms Goat.Props.C01.source_to_value
